@@ -257,6 +257,12 @@ Fixpoint py_remove1 (l : list Z) (x : Z) : list Z :=
   | y :: r => if y =? x then r else y :: py_remove1 r x
   end.
 
+(** [min(l)] / [max(l)] of a list of integers; [None] = ValueError (empty). *)
+Definition py_min_list (l : list Z) : option Z :=
+  match l with [] => None | x :: r => Some (fold_left Z.min r x) end.
+Definition py_max_list (l : list Z) : option Z :=
+  match l with [] => None | x :: r => Some (fold_left Z.max r x) end.
+
 (** [range(a, b)] and [range(a, b, -1)] as lists. *)
 Fixpoint py_range_up (lo : Z) (k : nat) : list Z :=
   match k with O => [] | S k' => lo :: py_range_up (lo + 1) k' end.
